@@ -311,6 +311,9 @@ static void vr_init(rate_t * p, double default_io_ratio, int num_stages, double 
   fifo_create(&p->output_fifo, sizeof(float));
   p->default_io_ratio = default_io_ratio;
   if (fade_coefs[0]==0) {
+#if defined SOXR_VERIF
+    { void soxr_verif_yield(char const *); soxr_verif_yield("vr:tables-check-passed"); }
+#endif
     for (i = 0; i < iAL(fade_coefs); ++i)
       fade_coefs[i] = (float)(.5 * (1 + cos(M_PI * i / (AL(fade_coefs) - 1))));
     prepare_coefs(poly_fir_coefs_u, POLY_FIR_LEN_U, PHASES0_U, PHASES_U, coefs0_u, mult);
